@@ -203,6 +203,12 @@ func (w *crashWorker) runCrashSequence(cs caseSpec) {
 			structural = append(structural, m.n, m.n+1)
 		}
 	}
+	for _, m := range muts {
+		if m.n <= total && m.kind == "remove" {
+			// between the removals of a conflicting append / prefix deletion spanning several files
+			conflict = append(conflict, m.n, m.n+1)
+		}
+	}
 	for _, op := range ops {
 		if op.K == "save" && strings.HasPrefix(op.Expect, "conflict") {
 			for d := int64(1); d <= 5; d++ {
@@ -269,6 +275,8 @@ var caseSeq int
 func (w *crashWorker) crashCase(rw int, salt uint64, cc crashCtx, isReplay bool) {
 	c := w.c
 	caseSeq++
+	cpu0 := cpuMS()
+	defer func() { c.Count("cpu-ms(reporting only):kill-cases", cpuMS()-cpu0) }()
 	dir := filepath.Join(c.Scratch, fmt.Sprintf("%scrash-%d", storeMarker, caseSeq))
 	_ = os.RemoveAll(dir)
 	_ = os.MkdirAll(dir, 0o755)
@@ -706,7 +714,7 @@ func (w *crashWorker) judgeRecovery(rw int, salt uint64, dir string, cc crashCtx
 		}
 		nop.Expect = strings.TrimSpace(nop.Expect + " (after recovery)")
 		c.LogInput(map[string]any{"phase": "crash-tail", "rw": rw, "crash": cc, "tail_ops": r.ops[cc.Acked:], "next": nop})
-		if !r.exec(nop) || !r.bundle(len(r.ops), true) {
+		if !r.exec(nop) || !r.bundle(len(r.ops), fullPolicy(r, nop, n+1)) {
 			break
 		}
 	}
